@@ -655,6 +655,10 @@ def run(ctx, build, verdict, ev):
     c["correspondence_mismatches"] = len(mism)
     c["oracle_violations"] = nviol
     c["samples"] = samples
+    w = next((o for sp, o, j in trig_index if sp is WITNESS), None)
+    if w is not None and not w["error"]:
+        c["F1_minimal_witness"] = {"rule": "if a is lo then x is very p and y is q", "degree": 0.5, "y_degree_observed": w["fuzzy"][0][1][0][1], "y_degree_documented": 0.5,
+                                   "leak_present": w["fuzzy"][0][1][0][1] != 0.5}
     c["model_variant"] = "Consequent.code_has_F1 = true (modify = modify_as_written)"
     ev["assumptions"] += [
         "libm pow(x, 2) results of the hedge `extremely` in scalar mode are taken from the implementation (oracle table recorded by an observer clone of hedge.py patched in during the run)",
